@@ -126,9 +126,16 @@ func containsCall(n ast.Node, fn string) (found *ast.CallExpr) {
 	return
 }
 
+// inHelper: the per-file code was extracted into a helper function called once per record; there a `return`
+// plays the role of the loop's `continue`
+var inHelper bool
+
 func endsInContinue(b *ast.BlockStmt) bool {
 	if len(b.List) == 0 {
 		return false
+	}
+	if _, ok := b.List[len(b.List)-1].(*ast.ReturnStmt); ok && inHelper {
+		return true
 	}
 	br, ok := b.List[len(b.List)-1].(*ast.BranchStmt)
 	return ok && br.Tok == token.CONTINUE
@@ -147,6 +154,7 @@ func doSaveGuard(repo, out string) error {
 	skip := []string{}
 	pathFmt, writeTarget, mkdirTarget, phoneSource := "", "", "", ""
 	var pathArgs []string
+	phoneName := "phone"
 	var creators []string
 	writes := 0
 	// every call in the whole package that can create a file system entry
@@ -228,7 +236,7 @@ func doSaveGuard(repo, out string) error {
 											pathFmt = pf
 											pathArgs = nil
 											for _, a := range ce.Args[1:] {
-												if exprString(a) == "phone" {
+												if exprString(a) == phoneName {
 													pathArgs = append(pathArgs, "phone")
 												} else if o, ok := c.operand(a); ok {
 													pathArgs = append(pathArgs, o)
@@ -270,7 +278,60 @@ func doSaveGuard(repo, out string) error {
 							}
 						}
 					}
-					walk(s.Body.List, "")
+					// the per-record code may live in a helper of the same package, called with the phone and the record key:
+					// analyse the helper's body with its parameters standing for the arguments
+					handled := false
+					if containsCall(s.Body, "os.WriteFile") == nil {
+						ast.Inspect(s.Body, func(n ast.Node) bool {
+							ce, ok := n.(*ast.CallExpr)
+							if !ok || handled {
+								return !handled
+							}
+							id, ok := ce.Fun.(*ast.Ident)
+							if !ok {
+								return true
+							}
+							var helper *ast.FuncDecl
+							for _, d := range f.Decls {
+								if fd2, ok := d.(*ast.FuncDecl); ok && fd2.Recv == nil && fd2.Name.Name == id.Name && fd2.Body != nil {
+									helper = fd2
+								}
+							}
+							if helper == nil || containsCall(helper.Body, "os.WriteFile") == nil {
+								return true
+							}
+							var params []string
+							for _, fl := range helper.Type.Params.List {
+								for _, nm := range fl.Names {
+									params = append(params, nm.Name)
+								}
+							}
+							if len(params) != len(ce.Args) {
+								return true
+							}
+							keyParam, phParam := "", ""
+							for i, a := range ce.Args {
+								switch exprString(a) {
+								case c.loopVar:
+									keyParam = params[i]
+								case "phone":
+									phParam = params[i]
+								}
+							}
+							if keyParam == "" || phParam == "" {
+								return true
+							}
+							c.loopVar, phoneName = keyParam, phParam
+							inHelper = true
+							walk(helper.Body.List, "")
+							inHelper = false
+							handled = true
+							return false
+						})
+					}
+					if !handled {
+						walk(s.Body.List, "")
+					}
 				default:
 					if m := containsCall(st, "os.MkdirAll"); m != nil && len(m.Args) > 0 {
 						mkdirTarget = exprString(m.Args[0])
